@@ -14,7 +14,8 @@ RULE = ("(detrend) polynomial_detrend(x, p), p in 0..5, on series {random, trend
         "p map to zero, idempotent, same result for the same samples held as int and as float; "
         "df_detrend = per-column polynomial_detrend on the selected numeric columns and touches "
         "nothing else; (rms) integral_rms(f, asd, band) = sqrt(trapz(asd^2, f)) over grid points in "
-        "the band (1e-12) on strictly increasing grids {linear, log, random, plan grids}, additive "
+        "the band (1e-12 + n*u) on non-decreasing grids {linear, log, random, plan grids, grids regular "
+        "from a summary only, stitched grids with a repeated junction frequency}, additive "
         "in power at a grid point, monotone under nesting; result.get_rms(band) = integral_rms("
         "result.f, result.asd, band) incl. reversed bands; (Parseval) full-band get_rms of white / "
         "low-passed / 1/f^alpha records within 6 % of the time-domain rms.  Distinct by case "
